@@ -86,12 +86,13 @@ type outcome struct {
 
 func newWorld(c tcase) (*irworld.World, *irworld.Fixture, error) {
 	var f *irworld.Fixture
-	o := irworld.Options{StorageEmission: 1000}
+	o := irworld.Options{StorageEmission: 1000, NoStart: true}
 	if *verbose {
 		o.Log, _ = zap.NewDevelopment()
 	}
 	w, err := irworld.New(c.State+"/"+c.Delivery, o, func(w *irworld.World) {
 		applyState(w, c.State)
+		w.T.CommitteeErr, w.T.IRListErr = nil, nil // lookups start failing after construction, before Start
 		f = w.InstallFixture()
 		// the network map known at construction has one node only: the first NewEpoch sees a changed map
 		w.T.NetMap = new(netmap.NetMap)
@@ -100,9 +101,10 @@ func newWorld(c tcase) (*irworld.World, *irworld.Fixture, error) {
 	if err != nil {
 		return nil, nil, err
 	}
-	if w.StartErr != nil {
+	applyState(w, c.State)
+	if err := w.Start(); err != nil {
 		w.Close()
-		return nil, nil, fmt.Errorf("Server.Start: %w", w.StartErr)
+		return nil, nil, fmt.Errorf("Server.Start: %w", err)
 	}
 	return w, f, nil
 }
